@@ -126,7 +126,7 @@ def sites(path, funcs):
 
 def run_check(prop, worktree, cache, scale, timeout):
     env = dict(os.environ)
-    env.update(VERIF_REPO=str(worktree), VERIF_CACHE=str(cache), VF_SCALE=str(scale), VF_WORKER_TIMEOUT="150", VF_OUT_DIR=str(Path(cache) / "out"))
+    env.update(VERIF_REPO=str(worktree), VERIF_CACHE=str(cache), VF_SCALE=str(scale), VF_WORKER_TIMEOUT="150", VF_STOP_AFTER="120", VF_OUT_DIR=str(Path(cache) / "out"))
     try:
         r = subprocess.run([str(VERIF / "check"), prop, "quick"], env=env, capture_output=True, text=True, timeout=timeout)
     except subprocess.TimeoutExpired:
